@@ -2,7 +2,7 @@
 
 PRELUDE = r'''M() { echo "m$1:$?"%(R)s; return $2; }
 T() { local s=$?; echo "t$1:$s"%(R)s; return $s; }
-S() { return $1; }
+S() { return $1; }; UA=(x y); declare -A UM=([k]=v)
 Q() { local s=$? c; eval "c=\$(( \${q$1:-0} + 1 )); q$1=\$c"; echo "q$1.$c:$s"%(R)s; if [ "$c" -le "$2" ]; then return $3; else return $(( 1 - $3 )); fi; }
 K() { local s=$? c; eval "c=\$(( \${k$1:-0} + 1 )); k$1=\$c"; echo "k$1.$c:$s"%(R)s; [ "$c" -eq 1 ]; }
 '''
@@ -96,7 +96,9 @@ class Renderer:
         if t == "f_redirfn":
             return "FR %d" % i
         if t == "us":
-            return ": $nope%d" % i
+            # an unset-parameter expansion in one of its forms: a variable that does not exist, an element an existing array does not hold,
+            # a key an existing associative array does not hold, an element of a variable that does not exist
+            return [": $nope%d", ": ${UA[1%d]}", ": ${UM[z%d]}", ": ${nope%d[0]}"][i % 4] % i
         if t == "fe":
             return ": ${nope%d:?}" % i
         if t in ("trapx", "trape"):
@@ -160,6 +162,12 @@ class Renderer:
         if t == "eval" and self.eval_as_source and self.in_quote == 0:
             # braces keep the here-document's lines together whatever follows the command on its line
             return "{\n. /dev/stdin <<'S%d'\n%s\nS%d\n}" % (i, self.r(n["a"]), i)
+        if t == "eval" and self.eval_as_source and self.in_quote > 0 and "\n" not in self.r(n["a"]):
+            # inside a quoted text (a trap handler): a one-line body is sourced from a here-string
+            self.in_quote += 1
+            body = self.r(n["a"])
+            self.in_quote -= 1
+            return ". /dev/stdin <<< " + sq(body)
         if t == "eval":
             self.in_quote += 1
             body = self.r(n["a"])
